@@ -9,9 +9,8 @@ CONSTANTS
   StatsThread = TRUE
   OrReacts = TRUE
   EnvLite = TRUE
-  AsIs_Spin = FALSE
   Mut = "none"
 SPECIFICATION Spec
-INVARIANTS TypeOK CopyLaw ClosedOnEveryPath CopiersGoneFirst LoopEndsOnlyOnPerm NoSpin NoStuck NoStuckStats
+INVARIANTS TypeOK CopyLaw ClosedOnEveryPath CopiersGoneFirst LoopEndsOnlyOnPerm NoStuck NoStuckStats
 PROPERTIES DialFailContinues StatsNeverBlocks HandlerEnds LoopEnds
 CHECK_DEADLOCK FALSE
